@@ -48,11 +48,23 @@ def run(ctx: Ctx):
     ctx.guard(r)
   from mlmverif.props import c04
   from mlmverif.props._queue import model as qmodel
+  from mlmverif.props import c17
+  ctx.include('R-C14-10', '"remote queues yield exactly the underlying elements":'
+              ' the single-element get the remote queue maps to wakes the'
+              ' producer after every successful dequeue (R-C04-5); a held result'
+              ' is found again whatever its value, incl. None (R-C17-1 cache'
+              ' branches)', _remote_shared, qmodel(ctx), min_instances=6)
   ctx.include('R-C14-8', '"a server that is shutting down answers with a'
               ' retriable timeout rather than hanging": no handler blocks on'
               ' the prefetch queue while holding the generator lock the stop'
               ' path needs (R-C04-4 lock order / no wait under a second lock)',
               c04.r4, qmodel(ctx), min_instances=3)
+
+
+def _remote_shared(sub, m):
+  from mlmverif.props import c04, c17
+  sub.guard(c04.r5, m)
+  sub.guard(c17.r1)
 
 
 def bound_table(repo) -> dict[str, FuncInfo | str]:
